@@ -302,21 +302,32 @@ Proof.
   constructor; [|apply IH; exact H2]. intro K. apply memZ_In in K. rewrite K in H1. discriminate.
 Qed.
 
-Lemma same_set_sound a b : same_set a b = true -> (forall x, In x a <-> In x b) /\ NoDup a.
+Lemma members_ok_sound pb iv kb st ms :
+  members_ok (fun iv c => Some (pb iv c)) iv kb st ms = true ->
+  (forall x, In x ms <-> In x (map sv_id (members kb pb iv st))) /\ NoDup ms.
 Proof.
-  unfold same_set. rewrite !andb_true_iff, !forallb_forall. intros [[H1 H2] H3].
-  split; [|apply nodupb_sound; exact H3]. intro x. split; intro K; apply memZ_In; [apply H1|apply H2]; exact K.
+  unfold members_ok. rewrite !andb_true_iff, !forallb_forall. intros [[H1 H2] H3].
+  split; [|apply nodupb_sound; exact H3]. intro x. split; intro K.
+  - specialize (H2 x K). apply existsb_exists in H2. destruct H2 as (c & Hc & E).
+    apply andb_true_iff in E. destruct E as [E W]. apply Z.eqb_eq in E. subst x.
+    specialize (H1 c Hc). rewrite W in H1. cbn [negb orb] in H1. apply eqb_prop in H1.
+    apply memZ_In in K. rewrite K in H1. apply in_map. unfold members. apply filter_In.
+    split; [exact Hc|]. rewrite W, <- H1. reflexivity.
+  - apply in_map_iff in K. destruct K as (c & <- & Hc). unfold members in Hc. apply filter_In in Hc.
+    destruct Hc as [Hc E]. apply andb_true_iff in E. destruct E as [W P].
+    specialize (H1 c Hc). rewrite W in H1. cbn [negb orb] in H1. apply eqb_prop in H1.
+    apply memZ_In. rewrite H1. exact P.
 Qed.
 
 Lemma greedy_okb_sound p1 kb pb : forall obs st,
-  greedy_okb p1 kb pb st obs = true -> greedy_ids p1 kb pb st obs.
+  greedy_okb p1 kb (fun iv c => Some (pb iv c)) st obs = true -> greedy_ids p1 kb pb st obs.
 Proof.
   induction obs as [|[i ms] rest IH]; intros st H; cbn [greedy_okb] in H.
   - apply gi_stop. rewrite forallb_forall in H. intros v Hv. apply negb_true_iff. apply H. exact Hv.
   - destruct (split_at i st) as [[[pre iv] post]|] eqn:S; [|discriminate].
     destruct (split_at_spec _ _ _ _ _ S) as (E & Eid & Hfirst). subst i.
     rewrite !andb_true_iff in H. destruct H as [[[[H1 H2] H3] H4] H5].
-    rewrite forallb_forall in H2, H3. destruct (same_set_sound _ _ H4) as [SS ND].
+    rewrite forallb_forall in H2, H3. destruct (members_ok_sound _ _ _ _ _ H4) as [SS ND].
     eapply gi_step; try eassumption.
     + intros v Hv El. specialize (H2 v Hv). rewrite El in H2. cbn in H2. apply Qle_bool_iff. exact H2.
     + intros v Hv El. specialize (H3 v Hv). rewrite El in H3. cbn in H3. apply Qlt_bool_iff. exact H3.
